@@ -62,6 +62,13 @@ pub fn templates() -> Vec<&'static str> {
         "$0 && (1/0)", "$0 || (1/0)", "(1/0) || $0", "(1/0) && $0", "$0 ? (1/0) : $1", "$0 ? $1 : (1/0)", "[$0, 1/0][0]",
         "$0 && [1][5]", "$0 || int('x')", "($0 && (1/0)) ? 1 : 2", "[1].map(x, $0 && (1/0))", "!($0 && (1/0))",
         "$0 && $1 && (1/0)", "$0 || $1 || (1/0)", "($0 || (1/0)) && $1",
+        // a constant failing condition, and two operands that fail in different ways
+        "(1/0) ? $0 : $1", "(1 / $0) ? $1 : $2", "[1][5] ? $0 : $1", "!(1 / $0) ? $1 : $2",
+        "(1 / $0) + (1 % $1)", "(1 / $0) - (1 % $1)", "(1 / $0) * (1 % $1)", "(1 / $0) / (1 % $1)", "(1 / $0) % (1 % $1)",
+        "(1 / $0) == (1 % $1)", "(1 / $0) != (1 % $1)", "(1 / $0) < (1 % $1)", "(1 / $0) >= (1 % $1)", "(1 / $0) in (1 % $1)",
+        "(1 % $1) * (1 / $0)", "(1 % $1) + (1 / $0)", "(1 % $1) < (1 / $0)", "-(1 / $0) * (1 % $1)",
+        "max(1 / $0, 1 % $1)", "pow(1 / $0, 1 % $1)", "(1 / $0).contains(1 % $1)", "[1, 2][1 / $0] + [1][1 % $1]", "f'{1 / $0}{1 % $1}'",
+        "[1 % $1][1 / $0]", "{'a': 1}[1 / $0] + (1 % $1)", "size(1 / $0) + size(1 % $1)", "(1 / $0) ? (1 % $1) : 2",
         // run-time-only macros and functions nested in collections inside a foldable call
         "[1].map(z, [has($0)])", "zip([coalesce($0, 7)], [1])", "[1].map(z, [[has($0.a)]])", "[1].map(z, {'k': [coalesce($0, 1)]})",
         "[1].map(z, [has({'a': $0}.a), z])", "[[1].map(z, [coalesce(null, $0)])]",
@@ -256,7 +263,13 @@ impl Space {
                                 got.show(),
                             );
                         } else if a != b {
-                            acc.count("same failure class but different error kind (not demanded)", 1);
+                            // "does not change the result ... this includes failures": the same failure
+                            acc.violation(
+                                &format!("`{}` failure-kind-differs", tp),
+                                case(),
+                                format!("the all-variable form gives {}", r.show()),
+                                got.show(),
+                            );
                         }
                     }
                 }
@@ -284,7 +297,14 @@ fn has_pushed_time(bc: &[ByteCode]) -> bool {
     })
 }
 
-const CLOCK_SRCS: [&str; 17] = [
+const CLOCK_SRCS: [&str; 23] = [
+    "type(timestamp(0))()",
+    "[timestamp][0]()",
+    "(true ? timestamp : int)()",
+    "{'t': timestamp}.t()",
+    "[type(now())][0]()",
+    "[1].map(i, type(timestamp(i))())[0]",
+
     // two and more call / macro-body blocks below a foldable call
     "dyn(dyn(now()))",
     "[1].map(x, dyn(timestamp()))[0]",
@@ -335,16 +355,16 @@ fn run_clock(idx: u64, acc: &mut Acc) {
         }
     }
     let compile_ns = before.timestamp() as i128 * NS + before.timestamp_subsec_nanos() as i128;
-    // tolerance: the wall clock may step back by less than 5 ms between observations
-    let slack = 5_000_000i128;
-    let increasing = obs.windows(2).all(|w| w[1] + slack > w[0] + 10_000_000);
-    let after_compile = obs[0] + slack > compile_ns + 10_000_000;
+    // The verdict must not depend on how the wall clock behaves (it may be stepped while the check
+    // runs): a reading that is repeated bit for bit 12 ms later was not read from the clock
+    let increasing = obs.windows(2).all(|w| w[1] != w[0]);
+    let after_compile = obs[0] != compile_ns;
     acc.nontrivial(&("clock", idx));
     if frozen || !increasing || !after_compile {
         acc.violation(
             &format!("clock `{}` frozen-at-compile-time", src),
             json!({"src": src, "compiled_at_ns": compile_ns.to_string(), "executions_ns": obs.iter().map(|o| o.to_string()).collect::<Vec<_>>(), "bytecode_holds_a_timestamp_constant": frozen}),
-            "each execution reads the clock: results 12 ms apart, all after the compile instant, no timestamp constant in the bytecode".into(),
+            "each execution reads the clock: no two executions 12 ms apart give the same nanosecond reading, no timestamp constant in the bytecode".into(),
             format!("executions {:?}", obs),
         );
     }
